@@ -123,6 +123,27 @@ def run(report, tier, seed, driver, proofs_ok):
                 props[key] = text
                 encoded = shape
             cases.append(({"Type": rng.choice(["Custom::Thing", "AWS::Logs::ResourcePolicy", "AWS::ECR::Repository"]), "Properties": props}, docs, encoded))
+        elif rng.random() < 0.35:
+            # modelled types whose properties have generic-typed option blocks: documents planted there are embedded too
+            extra_docs = [(None, gen.gen_policy_document(rng, sid_prefix=f"g{i}d{j}s", with_condition=True)) for j in range(rng.randrange(1, 3))]
+            kind = rng.randrange(3)
+            if kind == 0:
+                base = gen.gen_policy_document(rng, sid_prefix=f"g{i}base", with_condition=True)
+                r = {"Type": "AWS::OpenSearchService::Domain", "Properties": {"DomainName": "d", "AccessPolicies": base, rng.choice(["LogPublishingOptions", "AdvancedOptions", "ClusterConfig", "VPCOptions"]): plant(rng, extra_docs, depth=2)}}
+                docs = [(None, base)] + extra_docs
+            elif kind == 1:
+                base = gen.gen_policy_document(rng, sid_prefix=f"g{i}base", with_condition=True)
+                r = {"Type": "AWS::Elasticsearch::Domain", "Properties": {"DomainName": "d", "AccessPolicies": base, rng.choice(["LogPublishingOptions", "EBSOptions", "SnapshotOptions"]): plant(rng, extra_docs, depth=2)}}
+                docs = [(None, base)] + extra_docs
+            else:
+                r = {"Type": "AWS::S3::Bucket", "Properties": {"BucketName": "b", rng.choice(["NotificationConfiguration", "LifecycleConfiguration", "LoggingConfiguration"]): plant(rng, extra_docs, depth=2)}}
+                docs = list(extra_docs)
+            last = list(r["Properties"])[-1]
+            v = r["Properties"][last]
+            if not isinstance(v, dict) or "Statement" in v or set(v) >= {"PolicyName", "PolicyDocument"}:
+                # like a resource's Properties object, the value of a generic-typed field is a generic object, never itself a document
+                r["Properties"][last] = {"Holder": v}
+            cases.append((copy.deepcopy(r), docs, False))
         else:
             r, ds = gen.gen_iam_resource(rng, tag=f"m{i}", with_condition=True)
             names = None
